@@ -133,6 +133,34 @@ def find_sites(fi: FuncInfo) -> List[Site]:
     return sites
 
 
+
+def _known_near_integer(site) -> bool:
+    """The argument of a round() is under a path condition `is_almost_int(<same expr>, ..)` known true."""
+    from ..cfg import Conditions
+
+    n = site.node
+    if not (isinstance(n, ast.Call) and n.args):
+        return False
+    arg = short(n.args[0], 200)
+    st = enclosing_stmt(n)
+    if st is None:
+        return False
+    cache = getattr(site.fi, "_cond_cache", None)
+    if cache is None:
+        cache = Conditions(site.fi.body)
+        site.fi._cond_cache = cache  # type: ignore[attr-defined]
+    for key, pol in cache.conds_at(st):
+        if pol and "is_almost_int(" in key:
+            try:
+                e = ast.parse(key, mode="eval").body
+            except SyntaxError:
+                continue
+            for c in ast.walk(e):
+                if isinstance(c, ast.Call) and call_name(c) == "is_almost_int" and c.args and short(c.args[0], 200) == arg:
+                    return True
+    return False
+
+
 def _role_by_name(name: str, fi: Optional[FuncInfo] = None) -> Optional[str]:
     # numbered pairs: <stem>0/<stem>1 or <stem>1/<stem>2 - which number is the lower end depends on the twin that
     # occurs in the same function (ix0, ix1 -> ix1 is the UPPER end; ix1, ix2 -> ix1 is the LOWER end)
@@ -327,6 +355,10 @@ def rule_round(prog: Program, modules: Set[str]) -> List[Instance]:
                 continue
             if role is None:
                 out.append(Instance("R-ROUND", cid, INFO, f"unclassified rounding site `{short(s.node, 60)}` (no interval/count sink recognised)", where, nontrivial=False))
+                continue
+            if (s.kind in NEAREST or s.kind == "round") and _known_near_integer(s):
+                # round() of a value an is_almost_int() path condition already accepted only removes float noise: no direction involved
+                out.append(Instance("R-ROUND", cid, OK, f"`{short(s.node, 60)}` converts a value known to be near-integer (is_almost_int held)", where))
                 continue
             if s.kind in NEAREST or s.kind == "round":
                 out.append(Instance("R-ROUND", cid, BAD, f"`{short(s.node, 60)}` rounds to nearest but feeds a {role} ({how}): a partially covered pixel can be lost", where))
